@@ -1,9 +1,10 @@
 from tsv.driver import run_check
 from contracts.distr import interface_harnesses, pairing_harnesses
+from contracts.mog import mog_interface_harness
 
 
 def run(tier, seed, update_ledger=False, only=None, jobs=None):
-    hs = interface_harnesses(tier)
+    hs = interface_harnesses(tier) + [mog_interface_harness()]
     hs = [h for h in hs if not only or only in h.hid]
     return run_check("C18", hs, tier=tier, seed=seed, update_ledger=update_ledger, jobs=jobs,
                      unbounded_in=["tensor values (shapes come from real torch meta inference, so they are exact for every value)"],
